@@ -294,7 +294,7 @@ pub fn run(cfg: &Config) -> i32 {
                 1 => format!(
                     "{{1:{}}}{{2:{}}}{{3:{{108:{}}}{{121:{}}}}}{{4:\n{body}\n-}}{{5:{{CHK:{}}}}}",
                     super::c10::block1(k, k % 2 == 0),
-                    super::c10::block2_input(lay.mt, k, [17, 18, 21][k % 3]),
+                    super::c10::block2_input(lay.mt, k, [17, 18, 21][(k / 3) % 3]),
                     super::c10::b3_value("108", k),
                     super::c10::b3_value("121", k),
                     super::c10::b5_value("CHK", k)
